@@ -131,19 +131,19 @@ def faulty_class():
         class FaultyBinaryNode(BinaryNode):
             def _BinaryNode__pre_assign_parent(self, new_parent):
                 if _ARM["kind"] == "parent" and _ARM["point"] == "pre":
-                    raise HookFault("pre_assign_parent")
+                    raise core.hook_exc(_ARM.get("op"), "pre_assign_parent")
 
             def _BinaryNode__post_assign_parent(self, new_parent):
                 if _ARM["kind"] == "parent" and _ARM["point"] == "post":
-                    raise HookFault("post_assign_parent")
+                    raise core.hook_exc(_ARM.get("op"), "post_assign_parent")
 
             def _BinaryNode__pre_assign_children(self, new_children):
                 if _ARM["kind"] == "children" and _ARM["point"] == "pre":
-                    raise HookFault("pre_assign_children")
+                    raise core.hook_exc(_ARM.get("op"), "pre_assign_children")
 
             def _BinaryNode__post_assign_children(self, new_children):
                 if _ARM["kind"] == "children" and _ARM["point"] == "post":
-                    raise HookFault("post_assign_children")
+                    raise core.hook_exc(_ARM.get("op"), "post_assign_children")
 
         _CLS["c"] = FaultyBinaryNode
     return _CLS["c"]
@@ -180,6 +180,7 @@ class World:
     def apply(self, op):
         """perform one op on the real objects; returns True (accepted) / False (raised)"""
         k, v = op[0], self.nodes[op[1]]
+        _ARM["op"] = op      # the class of the exception a raising hook throws is a function of the op
         try:
             if k == "P":
                 _ARM["kind"], _ARM["point"] = "parent", op[3]
